@@ -34,7 +34,7 @@ pub fn get() -> FunctionDefinitions {
                 };
                 match self.0.apply(value, 0) {
                     Some(JsonValue::Object(map)) => {
-                        let mut new_map = IndexMap::with_capacity(length);
+                        let mut new_map = IndexMap::with_capacity(length.min(map.len()));
                         for (index, (k, v)) in map.into_iter().enumerate() {
                             if new_map.len() == length {
                                 break;
@@ -46,7 +46,7 @@ pub fn get() -> FunctionDefinitions {
                         Some(new_map.into())
                     }
                     Some(JsonValue::Array(vec)) => {
-                        let mut new_vec = Vec::with_capacity(length);
+                        let mut new_vec = Vec::with_capacity(length.min(vec.len()));
                         for (index, i) in vec.into_iter().enumerate() {
                             if new_vec.len() == length {
                                 break;
@@ -58,18 +58,8 @@ pub fn get() -> FunctionDefinitions {
                         Some(new_vec.into())
                     }
                     Some(JsonValue::String(str)) => {
-                        if start >= str.len() || length == 0 {
-                            Some(String::new().into())
-                        } else {
-                            let last_index = start + length;
-                            let last_index = if last_index >= str.len() {
-                                str.len()
-                            } else {
-                                last_index
-                            };
-                            let str = str[start..last_index].to_string();
-                            Some(str.into())
-                        }
+                        let str: String = str.chars().skip(start).take(length).collect();
+                        Some(str.into())
                     }
                     _ => None,
                 }
